@@ -7,6 +7,9 @@ def units(ctx):
         # API-level spec at quiescent points (task bodies and the Submit yield point are gates): every arrival order of
         # Submit / held Submit / Shutdown / Start / waits / task completion, replayed on the real pool
         SeqUnit("workerpool", "WorkerPool", traces=(40, 40), thorough_traces=(300, 60), walks=(60, 25), thorough_walks=(500, 40)),
+        # two Submits held past their running check while Shutdown arrives (3 threads; sub-alphabet, deeper)
+        SeqUnit("workerpool", "WorkerPool", name="WorkerPool:two-held-submits", lts_kind="lts2", do_mc=False, do_trace=False,
+                walks=(40, 20), thorough_walks=(400, 30)),
         SeqUnit("workerpool", "PoolGroup", traces=(40, 40), thorough_traces=(300, 60), walks=(60, 25), thorough_walks=(500, 40)),
         # free-running submitters / nested submits / Shutdown, conservation validated by TLC on every recorded execution
         TraceUnit("workerpool", "PoolRun", "poolstress", args=["-traces", 40], thorough_args=["-traces", 400]),
